@@ -105,7 +105,7 @@ Proof.
   all: try lia.
   all: try (timeout 5 tauto).
   all: try solve [timeout 10 intuition (try discriminate; try congruence; try lia; eauto)].
-  all: show.
+  all: subst; rewrite H; cbn; auto 10.
 Qed.
 
 Lemma W5_evo : forall s l s', (lock s = None -> todo s = []) -> W1b s -> HFX s -> W5 s ->
